@@ -694,7 +694,21 @@ def generated_alias_case(ctx, case):
     class Inner(object):
         pass
 
+    class Pose(object):
+        # a container with positional AND keyword fields (the documented
+        # general form of multi_attribute_alias)
+        def __init__(self, a, b, yaw=None, pitch=None):
+            self.a, self.b, self.yaw, self.pitch = a, b, yaw, pitch
+
+        def __iter__(self):
+            return iter((self.a, self.b))
+
+        def __eq__(self, o):
+            return (self.a, self.b, self.yaw, self.pitch) == \
+                (o.a, o.b, o.yaw, o.pitch)
+
     class Host(object):
+        mixed = U.multi_attribute_alias(Pose, 'p', 'q', yaw='r', pitch='s')
         plain = U.attribute_alias('target')
         scaled = U.attribute_transform('target', lambda v: v * k,
                                        lambda v: v / k)
@@ -719,6 +733,13 @@ def generated_alias_case(ctx, case):
         h.kw = Vector(vals[1], vals[2], vals[0])
         ok = ok and (h.p, h.q, h.r) == (vals[1], vals[2], vals[0]) and \
             h.kw == Vector(vals[1], vals[2], vals[0])
+        h.mixed = Pose(vals[0], vals[1], yaw=vals[2], pitch=k)
+        ok = ok and (h.p, h.q, h.r, h.s) == (vals[0], vals[1], vals[2], k) \
+            and h.mixed == Pose(vals[0], vals[1], yaw=vals[2], pitch=k)
+        h.mixed = Pose(vals[2], k, yaw=vals[0], pitch=vals[1])
+        ok = ok and (h.p, h.q, h.r, h.s) == (vals[2], k, vals[0], vals[1])
+        h.s = 7
+        ok = ok and h.mixed.pitch == 7
         h.inner = Inner()
         h.part = vals[0]
         ok = ok and h.inner.field == vals[0] and h.part == vals[0]
